@@ -8,7 +8,10 @@ what runs here is the executable statement of the property on the implementation
            Score ≤ `globalScore (palsS SameCost DiffCost)` of the two hit regions (the proved
            oracle, `Biogo.Properties.C15.palsGlobal_opt`); DiffCost·editDist(regions) ≤
            RMatchCost·|B|·Error (the "edit distance is bounded by the reported error" clause,
-           evaluated directly with the proved edit-distance oracle);
+           evaluated directly with the proved edit-distance oracle); the consequences of the
+           kernel contract (`Spec.PalsKernel.consistent`: 0 ≤ Score ≤ min(lengths) − DiffCost·indel,
+           alen + blen − 2·Score = 7g + 8x with g ≥ indel of the same parity, both ends of the hit
+           on diagonals within [LowDiagonal, HighDiagonal]);
  model     the acceptance function `accept` of the model holds for the hit and the reported
            Error is `errNum/(RMatchCost·blen)` (disagreement → `diff`);
  workload  every planted pair is recovered by one hit on the right strand that overlaps more
@@ -19,6 +22,7 @@ Core-only.
 import Biogo.Go.Wire
 import Biogo.Model.PalsOracle
 import Biogo.Model.PalsOptimise
+import Biogo.Spec.PalsKernel
 import Biogo.Generated.PalsConsts
 
 namespace Biogo.Drive.C15
@@ -101,6 +105,9 @@ def hitWhy (minLen minIdMilli : Int) (target working : Array Nat) (o : HitObs) :
           let d : Int := editDist a b
           if DiffCost * d * tenTo12 > RMatchCost * h.blen * (e12 + 1) then
             some s!"edit-distance-not-bounded-by-reported-error {showHit o} edit={d} e12={e12}"
+          else if !Biogo.Spec.PalsKernel.consistent SameCost DiffCost ⟨h, o.lowDiag, o.highDiag⟩ then
+            -- consequences of the kernel contract (`Properties/C15_kernel.lean`)
+            some s!"kernel-contract-inconsistent {showHit o} diagonals={o.lowDiag}..{o.highDiag}"
           else none
 
 /-- the model's acceptance decision and error formula for a reported hit; `none` = agrees -/
